@@ -84,7 +84,7 @@ fn gen_insts(rng: &mut Rng, n: usize) -> Vec<AInst> {
 
 pub fn run(cfg: &Cfg, rep: &mut Report) {
     rep.rule = "binaries with N in 0..12 generated instructions, well-formed or with a parse error injected at instruction j; for EVERY callback position k in 0..N+2 (initialize, header, N instructions, finalize) and every action (stop, error carrying a unique token) a scripted consumer answers at k: the callback log must be exactly the protocol prefix ending at k, delivered instructions must equal the stream's, the result must be ConsumerStopRequested / ConsumerError holding the consumer's own boxed token, finalize must be called iff the binary was parsed to the end without error; load_bytes must return a module only then. distinct_nontrivial = distinct (N, position class, action, error-injected) combinations".into();
-    let n = cfg.n(8_000, 1_500_000);
+    let n = cfg.n(8_000, 10_000_000);
     run_stage(cfg, rep, "protocol", n, |idx, rng, r| {
         let n_inst = (idx % 13) as usize;
         let insts = gen_insts(rng, n_inst);
